@@ -502,6 +502,13 @@ def started : List Ev → List Act
   | .getlive a _ :: rest => a :: started rest
   | _ :: rest => started rest
 
+/-- the capturing executions in a list (`action.out` changes only at a `read` step: an execution with capture off
+    never sets it) -/
+def reads : List Ev → List Act
+  | [] => []
+  | .read a :: rest => a :: reads rest
+  | _ :: rest => reads rest
+
 /-- scenario forests: every execution has its verbosity flag `on` and its capture mode `cap` -/
 inductive Forest
   | nil
